@@ -79,7 +79,9 @@ RecordFields ==
    IR2 |-> <<<<"Name", B("string")>>, <<"Vals", <<"slice", B("int")>>>>>>,
    IR3 |-> <<<<"C", B("int")>>, <<"D", B("string")>>>>,
    IBox |-> <<<<"Val", SVar(1)>>, <<"Tag", B("string")>>>>,
-   IPair |-> <<<<"Fst", SVar(1)>>, <<"Snd", SVar(2)>>>>]
+   IPair |-> <<<<"Fst", SVar(1)>>, <<"Snd", SVar(2)>>>>,
+   ITagged |-> <<<<"TVal", SVar(1)>>>>,
+   IRev |-> <<<<"RSecond", SVar(2)>>, <<"RFirst", SVar(1)>>>>]
 RECURSIVE InstArgs(_, _)
 InstArgs(t, targs) ==
   CASE t[1] = "svar"  -> targs[t[2]]
